@@ -2,3 +2,4 @@ pub mod history;
 pub mod c01;
 pub mod structural;
 pub mod fault;
+pub mod grid;
